@@ -602,7 +602,7 @@ theorem substitute_repaired_pos_or_nan (entries : List ((Nat × Nat) × FVal)) :
     · simp [h0]
 
 /-- … whereas the unchanged assembly substitutes `2 * 0 = 0` when every pair is undefined
-(`AAAA` vs `GGGG` under K2P: the estimator returns `+Inf`, the matrix reports 0) -/
+(`AAGG` vs `GGGG` under K2P: `1 - 2P - Q = 0`, the estimator returns `+Inf`, the matrix reports 0) -/
 theorem substitute_asIs_zero_witness : substitute Variant.asIs [((0, 1), FVal.pinf)] = fin 0 := by
   unfold substitute maxAccepted isUncomputable
   simp [Variant.asIs]
